@@ -100,7 +100,7 @@ def _(cx):
     cx.cover("end")
 
 
-@contract("hydroelastic.RigidBody.express_in", fn="distance3d.hydroelastic_contact._rigid_body.RigidBody.express_in", props=["C16"],
+@contract("hydroelastic.RigidBody.express_in", fn="distance3d.hydroelastic_contact._rigid_body.RigidBody.express_in", props=["C16", "C17"],
           deps=["distance3d.utils.invert_transform", "distance3d.utils.transform_points"], opts=dict(minmax_ite=True))
 def _(cx):
     """a body with every lazily computed cache filled (tetrahedra points, centre of mass, per-tetrahedron boxes, AABB tree) is re-expressed
@@ -115,6 +115,12 @@ def _(cx):
     else:
         V = np.array([[cx.real("v%d_%d" % (i, j), lo=-1.0, hi=1.0) for j in range(3)] for i in range(4)], dtype=float)
     V = np.ascontiguousarray(V)
+    e1, e2, e3 = [[V[k][j] - V[0][j] for j in range(3)] for k in (1, 2, 3)]
+    det = dot(e1, spec.cross(e2, e3))
+    if sym(cx):
+        cx.assume(det * det > 0, "pre:tetrahedron_nondegenerate")        # volume > 0 (C17: factories only produce such tetrahedra)
+    else:
+        cx.assume(CB(1e-3 - abs(float(det))), "pre:tetrahedron_nondegenerate")
     tets = np.array([[0, 1, 2, 3]], dtype=int)
     pot = np.array([0.0, 0.0, 0.0, 0.5]) if not sym(cx) else np.array([0.0, 0.0, 0.0, 0.5], dtype=object)
     body = cx.call(K, np.ascontiguousarray(np.array(T0, dtype=T0.dtype)), V, tets, pot)
@@ -122,6 +128,7 @@ def _(cx):
     if which >= 1:
         cx.call(lambda: body.tetrahedra_points)
         cx.call(lambda: body.aabbs)
+        cx.call(lambda: body.com)
     if which == 2:
         cx.call(lambda: body.aabb_tree)
     old_world = [spec.to_world_point(cx, T0, V[i]) for i in range(4)]
@@ -129,5 +136,11 @@ def _(cx):
     for i in range(4):
         cx.prove("world_vertex_unchanged[%d]" % i, cx.eq(spec.to_world_point(cx, body.body2origin_, body.vertices_[i]), old_world[i]), tol=1e-9)
     fresh = cx.call(K, np.ascontiguousarray(np.array(T1, dtype=T1.dtype)), body.vertices_, tets, pot)
+    # observational equality: every lazily computed quantity is read on both bodies first, so a cache that is carried over CORRECTLY is
+    # accepted, a stale or wrongly transformed one is not (the state comparison then covers the cached values as well)
+    for b in (body, fresh):
+        cx.call(lambda: b.tetrahedra_points)
+        cx.call(lambda: b.aabbs)
+        cx.call(lambda: b.com)
     _state_equal(cx, body, fresh, "RigidBody", set())
     cx.cover("end")
